@@ -23,6 +23,9 @@ type Opts struct {
 	Callback   bool `json:"callback,omitempty"`   // CompletedCallback(func)
 	Vars       bool `json:"vars,omitempty"`       // WithVars(empty map)
 	Consts     bool `json:"consts,omitempty"`     // WithConstants(map without the keys a query uses)
+	// Rev: the very same options are handed to New in the opposite order (an option set means the same
+	// whatever order the caller lists it in)
+	Rev bool `json:"rev,omitempty"`
 }
 
 func (o Opts) String() string {
@@ -70,6 +73,11 @@ func (o Opts) list() []genql.QueryOption {
 	}
 	if o.Consts {
 		l = append(l, genql.WithConstants(map[string]any{"unused_constant": 1.0}))
+	}
+	if o.Rev {
+		for i, j := 0, len(l)-1; i < j; i, j = i+1, j-1 {
+			l[i], l[j] = l[j], l[i]
+		}
 	}
 	return l
 }
